@@ -21,6 +21,7 @@ META = {
     "assumptions": [],
 }
 META["explanation"] += ' R04.1 counts acquisitions made in private helpers of the wrapper as its own (virtual inlining); R01.1 (every mutable borrow of the value reaches the version bump in the same function) is evaluated here too: a value written in one critical section and the version bumped in another is visible with the old version.'
+META["explanation"] += ' R04.5 no acquisition of the state lock while a kept guard of it is alive (writer-fair RwLocks: a recursive read lock deadlocks with a queued writer); metadata-lock acquisitions are nested by design and not counted; for the async flavour creating a lock future is not an acquisition, polling / awaiting it is.'
 
 ACQ = r"^(std::sync::RwLock|tokio::sync::RwLock)::<.*>::(write|read|try_write|try_read|blocking_write|blocking_read|write_owned|read_owned)$"
 EXCL = r"::(write|try_write|blocking_write|write_owned)$"
@@ -33,6 +34,7 @@ def run(ctx):
     r04_2(ctx)
     r04_3(ctx)
     r04_4(ctx)
+    r04_5(ctx)
     # "each subscriber observes values in that order ... and ends on the final value": needs the version protocol and no lost wake-up
     from . import c01, groups
     closes = find_close_fn(F)
@@ -44,6 +46,9 @@ def run(ctx):
         c01.r01_6(ctx, init)
         c01.r01_7(ctx, init)
     groups.eyeball_close_and_wake(ctx)
+
+
+GUARD_TY = r"(SharedReadGuard|OwnedSharedReadGuard|RwLockReadGuard|RwLockWriteGuard|OwnedRwLockReadGuard|OwnedRwLockWriteGuard|ObservableReadGuard|ObservableWriteGuard)<"
 
 
 def r04_1(ctx):
@@ -180,3 +185,123 @@ def r04_4(ctx):
         ctx.verdict(first.startswith("&mut "), "R04.4", f, "setter-needs-&mut", f.loc(), "first parameter is `%s`" % first,
                     "`%s` takes `%s`: the unique Observable could be modified through a shared reference" % (f.path, first))
     ctx.floor("R04.4", n, 6 if not ctx.has_async else 12)
+
+
+def state_lock_sites(b):
+    """blocks of this body that acquire the *state* lock (not the metadata lock inside ObservableState, which is nested by
+    design): SharedReadLock::lock / try_lock, RwLock::{read, write, ..} on a `state` field. For the async flavour the call only
+    creates a future; it counts when that future is polled / awaited in this body (a future stored for later is no acquisition)."""
+    out = []
+    for blk, t in b.calls():
+        callee = t.get("callee") or ""
+        is_sub = bool(re.search(SUB_ACQ, callee))
+        is_rw = bool(re.search(ACQ, callee)) and t["args"] and mentions_field(b.expr_of_op(t["args"][0]), "state")
+        if not (is_sub or is_rw):
+            continue
+        dty = str(b.locals[t["dest"]["l"]]["ty"]) if not t["dest"]["proj"] else ""
+        is_future = dty.startswith("impl ") or not (re.match(r"^[\w:]*Guard<", dty) or dty.startswith("std::result::Result<") or dty.startswith("std::option::Option<"))
+        if is_future:
+            # awaited here?  (into_future / poll applied to a value derived from this call)
+            loc = (blk, len(b.blocks[blk]["stmts"]))
+            polled = False
+            for blk2, t2 in b.calls(r"IntoFuture>?::into_future$|Future>?::poll$"):
+                if t2["args"] and contains(b.expr_of_op(t2["args"][0]), lambda y: y[0] == "call" and y[4] == loc):
+                    polled = True
+            if not polled:
+                continue
+        out.append(blk)
+    return out
+
+
+def acquiring_fns(F):
+    """local functions that take the state lock somewhere in their logical bodies (direct acquisition or through another one)."""
+    from .c01 import logical_bodies
+    acq = set()
+    for f in F.find(crate=EY):
+        for lb in logical_bodies(F, f):
+            if lb.built and state_lock_sites(lb.built):
+                acq.add(f.key)
+    changed = True
+    while changed:
+        changed = False
+        for f in F.find(crate=EY):
+            if f.key in acq:
+                continue
+            for lb in logical_bodies(F, f):
+                if not lb.built:
+                    continue
+                for blk, t in lb.built.calls():
+                    c = F.local_callee(lb, t)
+                    if c is not None and root_fn(F, c).key in acq:
+                        acq.add(f.key)
+                        changed = True
+                        break
+    return acq
+
+
+def r04_5(ctx):
+    """no second acquisition of the state lock while a guard of it is held: both RwLocks are fair to writers, so a reader that
+    asks again while a writer is queued behind its first guard waits for that writer, which waits for the first guard - the
+    subscriber and every writer hang. A guard-typed local must be dropped / moved away before the function acquires again."""
+    F = ctx.facts
+    from .c01 import logical_bodies
+    acq = acquiring_fns(F)
+    n = 0
+    bad = 0
+    for f in F.find(crate=EY):
+        st = f.raw.get("self_ty") or ""
+        if not re.match(r"(subscriber::Subscriber|shared::SharedObservable|unique::Observable)<", st) or f.raw.get("impl_trait") and f.raw.get("impl_trait") not in ("futures_core::Stream", "std::future::Future", "futures_core::Future"):
+            continue
+        for lb in logical_bodies(F, f):
+            b = lb.built
+            if not b:
+                continue
+            whole, _ = b.defs
+            # acquisition sites in this body: direct, or a call of a local function that acquires (also the creation of its future)
+            sites = []
+            for blk, t in b.calls():
+                c = F.local_callee(lb, t)
+                if c is not None and root_fn(F, c).key in acq and root_fn(F, c) is not root_fn(F, lb):
+                    sites.append(blk)
+            sites += state_lock_sites(b)
+            if not sites:
+                continue
+            n += 1
+            for l, ds in whole.items():
+                ty = str(b.locals[l]["ty"])
+                if not re.match(r"^[\w:]*" + GUARD_TY, ty):   # the guard itself, not a future / Poll / Option that merely mentions it
+                    continue
+                if l == 0 or l <= b.arg_count:
+                    continue
+                # only guards that are *kept* (named locals / values stored across statements): a user variable or a local moved into one
+                if not b.locals[l].get("name"):
+                    continue
+                for loc, kind, payload in ds:
+                    start = loc[0]
+                    ends = set()
+                    for blk in range(b.n):
+                        t = b.term(blk)
+                        if t["k"] == "drop" and t["place"]["l"] == l and not t["place"]["proj"]:
+                            ends.add(blk)
+                        for st_ in b.blocks[blk]["stmts"]:
+                            if st_["k"] == "assign" and st_["rv"]["k"] == "use" and st_["rv"]["op"]["k"] == "move" and st_["rv"]["op"]["place"]["l"] == l and not st_["rv"]["op"]["place"]["proj"]:
+                                ends.add(blk)
+                        if t["k"] == "call":
+                            for a_ in t["args"]:
+                                if a_["k"] == "move" and a_["place"]["l"] == l and not a_["place"]["proj"]:
+                                    ends.add(blk)
+                    live = b.reachable_from(start, avoid_blocks=ends - {start})
+                    hit = [q for q in sites if q in live and q != start and not b.is_cleanup(q)]
+                    # the acquisition that produced the guard itself is not "a second one"
+                    hit = [q for q in hit if not (kind == "call" and q == loc[0])]
+                    if hit:
+                        bad += 1
+                        ctx.violated("R04.5", f, "no-acquisition-while-holding-a-guard", b.line_at((hit[0], 10 ** 6)),
+                                     "`%s` keeps the lock guard `%s` (%s) alive while it acquires the state lock again (bb%d): with a writer queued in between, the second (read) acquisition waits for the writer and the writer waits for the first guard - subscriber and writers hang forever" % (
+                                         f.path, b.locals[l].get("name"), ty.split("<")[0].split("::")[-1], hit[0]))
+                        break
+                else:
+                    continue
+                break
+    if not bad:
+        ctx.holds("R04.5", None, "no-acquisition-while-holding-a-guard", None, "%d function bodies with an acquisition: no kept guard is alive at another acquisition" % n)
